@@ -142,13 +142,14 @@ class GSABaseAttributionMethod(BlackBoxExplainer):
 
         input_shape = (inputs.shape[1], inputs.shape[2])
         heatmaps = None
+        batch_size = self.batch_size or len(self.masks)
 
         for inp, target in zip(inputs, targets):
 
             perturbator = self.perturbation_function(inp)
             outputs = None
 
-            for batch_masks in batch_tensor(self.masks, self.batch_size):
+            for batch_masks in batch_tensor(self.masks, batch_size):
 
                 batch_x, batch_y = self._batch_perturbations(
                     batch_masks, perturbator, target, input_shape
